@@ -76,6 +76,20 @@ pub fn run_alg(args: &[Sx]) -> Sx {
     })
 }
 
+/// a record type from OUTSIDE the crate that overrides the provided `len()` (e.g. aligned bases of a spliced read, fewer
+/// than `end - start`): the tiling of `split_by_len` / `rsplit_by_len` is defined on [start, end), not on `len()`
+#[derive(Clone)]
+struct Spliced { chrom: String, start: u64, end: u64 }
+impl BEDLike for Spliced {
+    fn chrom(&self) -> &str { &self.chrom }
+    fn set_chrom(&mut self, chrom: &str) -> &mut Self { self.chrom = chrom.to_string(); self }
+    fn start(&self) -> u64 { self.start }
+    fn set_start(&mut self, start: u64) -> &mut Self { self.start = start; self }
+    fn end(&self) -> u64 { self.end }
+    fn set_end(&mut self, end: u64) -> &mut Self { self.end = end; self }
+    fn len(&self) -> u64 { self.end.saturating_sub(self.start) / 2 }
+}
+
 pub fn run_split(args: &[Sx]) -> Sx {
     with_panic(|emit| {
         let g = GenomicRange::new("chrS", args[0].u64(), args[1].u64());
@@ -92,6 +106,12 @@ pub fn run_split(args: &[Sx]) -> Sx {
             if r6.split_by_len(b).map(|x| pr(&x)).ne(sp.iter().map(pr)) || rn.split_by_len(b).map(|x| pr(&x)).ne(sp.iter().map(pr))
                 || BedGraph::from_bed(&g, 1.5f64).split_by_len(b).map(|x| pr(&x)).ne(sp.iter().map(pr)) { emit(a("ORACLE-FAIL:split_by_len-depends-on-record-type/strand")); break; }
             if r6.rsplit_by_len(b).map(|x| pr(&x)).ne(rsp.iter().map(pr)) || rn.rsplit_by_len(b).map(|x| pr(&x)).ne(rsp.iter().map(pr)) { emit(a("ORACLE-FAIL:rsplit_by_len-depends-on-record-type/strand")); break; }
+        }
+        {
+            let sp2 = Spliced { chrom: "chrS".to_string(), start: g.start(), end: g.end() };
+            if sp2.split_by_len(b).map(|x| pr(&x)).ne(sp.iter().map(pr)) || sp2.rsplit_by_len(b).map(|x| pr(&x)).ne(rsp.iter().map(pr)) {
+                emit(a("ORACLE-FAIL:split-of-a-downstream-record-type-with-its-own-len()-does-not-tile-[start,end)"));
+            }
         }
         // the other ways of walking the same iterator: nth, skip, step_by, count, last
         let idx: Vec<usize> = vec![0, 1, 2, 3, sp.len().saturating_sub(1), sp.len(), sp.len() + 1, 7, 1 << 20, 1 << 33, usize::MAX / 2, usize::MAX];
@@ -113,6 +133,16 @@ pub fn run_split(args: &[Sx]) -> Sx {
         let mut it = g.split_by_len(b); let first = it.next().map(|x| pr(&x));
         let rest: Vec<(u64, u64)> = it.fold(Vec::new(), |mut v, x| { v.push(pr(&x)); v });
         if first != sp.first().map(pr) || rest.iter().ne(sp.iter().skip(1).map(pr).collect::<Vec<_>>().iter()) { emit(a("ORACLE-FAIL:split.next-then-fold")); }
+    })
+}
+
+/// (splithead s e b k): only the first k pieces of both tilings are taken — the record may have astronomically many
+pub fn run_splithead(args: &[Sx]) -> Sx {
+    with_panic(|emit| {
+        let g = GenomicRange::new("chrS", args[0].u64(), args[1].u64());
+        let (b, k) = (args[2].u64(), args[3].usize());
+        emit(tag("sp", g.split_by_len(b).take(k).map(|x| Sx::L(vec![a(x.start()), a(x.end())])).collect()));
+        emit(tag("rsp", g.rsplit_by_len(b).take(k).map(|x| Sx::L(vec![a(x.start()), a(x.end())])).collect()));
     })
 }
 
